@@ -263,6 +263,33 @@ theorem rest_stays_at_rest_spring_partial (inv : List (Tf K) → List (Motion K)
   | none => rfl
   | some l => exact jointForce_restLink _ _ _ _ _ (hlinks i hi l hl)
 
+/-- **Newton's first law, positional pipeline (partial).**  A consistent state with zero
+velocities (world and joint-frame) and unit link quaternions, in a system without gravity,
+actuators and contact, whose joint position corrections `d_w` all vanish, is returned *unchanged* by
+`positional.pipeline.step` — for every link type: the acceleration-level force `_damp` vanishes
+by itself (`posJointForces_zero`).  The correction vanishes for free links by `free_mask`
+(`jointDisplacements_free`); that it vanishes for 1-, 2- and 3-dof links in a pure joint
+configuration inside the limits is the part that is not proved (see the `…Stmt` below). -/
+theorem rest_stays_at_rest_positional_partial
+    (inv : List (Tf K) → List (Motion K) → List K × List K)
+    (cf : List (Tf K) → List (Contact K)) (s : Sys K) (st : Positional.State K) (act : List K)
+    (hc : PosConsistent inv s st) (hq : Quiet s) (hdt : s.dt ≠ 0)
+    (hrest : ∀ i, i < s.numLinks → nth st.xd i = ⟨0, 0⟩)
+    (hjd : ∀ i, i < s.numLinks → nth st.jd i = ⟨⟨0, 0, 0⟩, ⟨0, 0, 0⟩⟩)
+    (hunit : ∀ i, i < s.numLinks → Q4.normSq (nth st.x i).rot = 1)
+    (hcf : ∀ x, cf x = [])
+    (hdisp : ∀ i, i < s.numLinks → nth (Positional.jointDisplacements s st.j st.a_p) i = (0, 0)) :
+    Positional.step inv cf s st act = st :=
+  positional_rest_of_zero_displacements inv cf s st act hc hq hdt hrest hunit hcf
+    (fun i hi => posJointForces_zero s st.jd hjd hi) hdisp
+
+/-- a system all of whose links are free satisfies the last hypothesis: the correction of a free
+link is zeroed by `free_mask` (first component; the rotational one is `rotate 0 = 0` as well) -/
+theorem jointDisplacements_free_link (s : Sys K) (j a_p : List (Tf K)) {i : Nat}
+    (hi : i < s.numLinks) (hfree : s.types[i]? = some .free) :
+    (nth (Positional.jointDisplacements s j a_p) i).1 = 0 :=
+  jointDisplacements_free s j a_p hi hfree
+
 /- FULL statements (not proved; what is missing is named in notes/C04.md):
 
 def rest_stays_at_rest_springStmt : Prop :=
